@@ -190,9 +190,23 @@ func deriveCmdLine(t *Trans) *Derived {
 		}}
 	case "restore":
 		args := t.Args[1:]
-		for _, a := range args {
+		for i, a := range args {
 			if a == "--staged" {
-				return nil
+				rest := append(append([]string{}, args[:i]...), args[i+1:]...)
+				id := pre.headCommit()
+				if !argsOK(rest) || id == "" {
+					return nil
+				}
+				snap, _, ok := pre.commitSnapshot(id)
+				if !ok {
+					return nil
+				}
+				line := fmt.Sprintf("cmd.restore-staged %s %s %s", entriesOut(pre.Index), entriesOut(snap), argsOut(rest))
+				impl := "err " + entriesOut(post.Index)
+				if t.Res.Class == "ok" {
+					impl = "ok " + entriesOut(post.Index)
+				}
+				return &Derived{Line: line, Impl: impl}
 			}
 		}
 		if !argsOK(args) {
